@@ -138,7 +138,14 @@ func (mw MeshWriter) Write(mesh modeling.Mesh, writer io.Writer) error {
 		properties = append(properties, prop.Properties()...)
 	}
 
+	// A point cloud's points are the entries of its index array, everything
+	// else writes its vertices as they are and refers to them from the faces
+	indices := mesh.Indices()
+	pointCloud := mesh.Topology() == modeling.PointTopology
 	attributeLength := mesh.AttributeLength()
+	if pointCloud {
+		attributeLength = indices.Len()
+	}
 
 	header := Header{
 		Format: mw.Format,
@@ -195,8 +202,12 @@ func (mw MeshWriter) Write(mesh modeling.Mesh, writer io.Writer) error {
 	newLineByte := []byte{'\n'}
 
 	for i := 0; i < attributeLength; i++ {
+		vertex := i
+		if pointCloud {
+			vertex = indices.At(i)
+		}
 		for propI, prop := range builtWriters {
-			err = prop.Write(writer, i)
+			err = prop.Write(writer, vertex)
 			if err != nil {
 				return err
 			}
